@@ -297,6 +297,7 @@ STR_AXIOMS = [
     ("first_occ_len1", "(forall ((p Str) (d Str)) (! (=> (= (slen d) 1) (= (first_occ p d) (not (contains p d)))) :pattern ((first_occ p d))))"),
     ("rsplit_recompose", "(forall ((u Str) (d Str)) (! (=> (and (not (= d empty)) (contains u d)) (= (cat (cat (rpart_before u d) d) (rpart_after u d)) u)) :pattern ((rpart_before u d)) :pattern ((rpart_after u d))))"),
     ("cat_assoc", "(forall ((a Str) (b Str) (c Str)) (! (= (cat (cat a b) c) (cat a (cat b c))) :pattern ((cat (cat a b) c))))"),
+    ("le_refl", "(forall ((a Str)) (! (str_le a a) :pattern ((str_le a a))))"),
 ]
 
 
